@@ -205,12 +205,12 @@ Section ReplaceP.
 
 
   (* ---------- accumulator form (the code) = suffix form ---------- *)
-  Lemma loopA_loop : forall fuel acc prev s,
-    Replace.loopA isd term rep false false fuel acc prev s = option_map (app acc) (loop fuel prev s).
+  Lemma loopA_loop : forall fuel acc prev seen s,
+    Replace.loopA isd term rep false false fuel acc prev seen s = option_map (app acc) (loop fuel prev s).
   Proof.
     destruct term_split as (c0 & tw & Et).
     assert (Hn : n = S (length tw)) by (unfold n; rewrite Et; reflexivity).
-    induction fuel as [|f IH]; intros acc prev s; cbn [Replace.loopA Replace.loop]; fold n;
+    induction fuel as [|f IH]; intros acc prev seen s; cbn [Replace.loopA Replace.loop]; fold n;
       destruct (find s) as [idx|]; try reflexivity.
     cbn [andb orb negb]. rewrite andb_true_r.
     replace (idx + n - 1) with (idx + length tw) by lia.
@@ -353,11 +353,11 @@ Proof.
 Qed.
 
 (* ---------- flags ---------- *)
-Lemma loopA_both_flags isd term rep : forall fuel acc prev s,
-  loopA isd term rep true true fuel acc prev s = loopA isd term rep false false fuel acc prev s.
+Lemma loopA_both_flags isd term rep : forall fuel acc prev seen s,
+  loopA isd term rep true true fuel acc prev seen s = loopA isd term rep false false fuel acc prev seen s.
 Proof.
-  induction fuel as [|f IH]; intros acc prev s; cbn [loopA]; destruct (find term s) as [idx|]; try reflexivity.
-  rewrite IH. destruct (has_eq (firstn idx s)); reflexivity.
+  induction fuel as [|f IH]; intros acc prev seen s; cbn [loopA]; destruct (find term s) as [idx|]; try reflexivity.
+  rewrite IH. destruct (seen || has_eq (firstn idx s)); reflexivity.
 Qed.
 Theorem replace_both_flags isd term rep eq : replace_flags isd term rep true true eq = replace isd term rep eq.
 Proof. apply loopA_both_flags. Qed.
@@ -365,15 +365,6 @@ Proof. apply loopA_both_flags. Qed.
 Definition L := Coq.Strings.String.list_ascii_of_string.
 Import Coq.Strings.String.
 Local Open Scope string_scope.
-
-(* the documented meaning of rhs_only / lhs_only is NOT what the loop does: `"=" in eq_part` looks only at the
-   piece of the equation between the previous occurrence of the term and this one *)
-Theorem replace_rhs_flag_refuted : exists eq,
-  replace_flags is_delim (L "r") (L "X") true false eq <> Some (replace_words_sided is_delim (L "r") (L "X") true false eq).
-Proof. exists (L "a = r + r"). vm_compute. discriminate. Qed.
-Theorem replace_lhs_flag_refuted : exists eq,
-  replace_flags is_delim (L "r") (L "X") false true eq <> Some (replace_words_sided is_delim (L "r") (L "X") false true eq).
-Proof. exists (L "r = r + r"). vm_compute. discriminate. Qed.
 
 Local Close Scope string_scope.
 
